@@ -19,6 +19,14 @@ from . import vloop
 BODY_END = ('exit-ret', 'exit-raise', 'cancel-done', 'run-cancelled')
 
 
+def v_under(b, name):
+    out = []
+    for m in b.members.get(name, []):
+        out.append(m)
+        out.extend(v_under(b, m))
+    return out
+
+
 # ----------------------------------------------------------------------------- running
 def execute(spec, external_cancel_at=None, sample=None):
     b = vloop.build(spec)
@@ -77,6 +85,31 @@ def execute(spec, external_cancel_at=None, sample=None):
                     # the job has left the tree: the properties no longer speak of it
                     for d_ in (b.objs, b.spec, b.parent):
                         d_.pop(name, None)
+                elif kind == 'bypass':
+                    # bypass_and_remove, NOT followed by sanitize (it leaves the scheduler closed by itself)
+                    _, S, name = step
+                    ups = [y for (x, y) in b.edges[S] if x == name]
+                    downs = [x for (x, y) in b.edges[S] if y == name]
+                    b.objs[S].bypass_and_remove(b.objs[name])
+                    b.members[S].remove(name)
+                    b.edges[S] = [(x, y) for (x, y) in b.edges[S] if name not in (x, y)]
+                    for d_ in downs:
+                        for u_ in ups:
+                            if (d_, u_) not in b.edges[S] and d_ != u_:
+                                b.edges[S].append((d_, u_))
+                    for dd in (b.objs, b.spec, b.parent):
+                        dd.pop(name, None)
+                elif kind == 'clear':
+                    # every member is taken out: an empty scheduler is still a scheduler
+                    S = step[1]
+                    sch = b.objs[S]
+                    for name in list(b.members[S]):
+                        sch.remove(b.objs[name])
+                        for x in [name] + (v_under(b, name)):
+                            for dd in (b.objs, b.spec, b.parent, b.members, b.edges):
+                                dd.pop(x, None)
+                    b.members[S] = []
+                    b.edges[S] = []
                 elif kind == 'query':
                     sch = b.objs[step[1]]
                     list(sch.entry_jobs()), list(sch.exit_jobs()), sch.check_cycles(), list(sch.iterate_jobs())
@@ -106,6 +139,16 @@ def execute(spec, external_cancel_at=None, sample=None):
                 for step in (sess[k] if k < len(sess) else []):
                     apply(step)
             nruns = max(len(spec.get('session') or []), 1) if spec.get('rerun') else 0
+
+            def probe_now():
+                # read-only queries made while the run is in progress (from another task of the loop)
+                for S in list(b.members):
+                    try:
+                        apply(['query', S])
+                    except Exception as exc:          # a query that raises mid-run is reported by the oracles' caller
+                        b.trace.log('probe-raised', S, exc=exc)
+            for t_ in spec.get('probe_at') or []:
+                b.loop.call_at(t_, probe_now)
             r = vloop.run(b, external_cancel_at=external_cancel_at, again=nruns, on_second_run=second)
     finally:
         PureScheduler._create_task = orig
@@ -407,6 +450,14 @@ def abort_oracle(v, S, t_abort, tick_abort, what):
                 fin = v.first(m, 'cancel-done')
                 if fin is None or fin[0] > end[0]:
                     return '%s: run ended (tick %d, vt %s) before the cancellation of %s had completed' % (S, end[0], end[1], m)
+    # ... at any depth: when the run of S is over nothing below S is still going
+    if end is not None and end[2] != 'run-cancelled':
+        for x in v.under(S):
+            if v.is_sched(x):
+                continue
+            en, fin = v.first(x, 'enter'), v.end(x)
+            if en is not None and en[0] < end[0] and (fin is None or fin[0] > end[0]):
+                return '%s: its run ended (tick %d, vt %s) while %s, somewhere below it, was still going' % (S, end[0], end[1], x)
     if end is not None and end[1] > t_abort + slack(v, S) + 1e-9:
         return '%s: run ended at %s, later than %s + cancellation/shutdown slack %s' % (S, end[1], t_abort, slack(v, S))
     return None
